@@ -17,6 +17,13 @@ from .. import facts, pestgram, reglang
 from ..reglang import cls_union, cls_complement, cls_intersect
 
 LEVEL = "proof"
+
+# "Accepts every RFC 8259 text" is a statement about a process in which no call limit is in force; the only way to get
+# back there after a limit was set is set_call_limit(None), whose store-on-every-path clause (C12.SETTER) is re-run here.
+DEPENDS = [
+    ("C12", {"only_rules": ["SETTER"], "configs": ["default"],
+             "why": "a limit that cannot be lifted makes JsonParser reject valid documents"}),
+]
 JSON = "grammars/src/grammars/json.pest"
 SCALARS = [(0, 0xD7FF), (0xE000, 0x10FFFF)]
 BUILTIN_CLS = {
@@ -165,7 +172,18 @@ def first_cls(r):
     raise ValueError(k)
 
 
-def determinacy(r, follow, rule, where, count):
+def is_single(r):
+    """Does r match exactly one character on every alternative?"""
+    if r[0] == "cls":
+        return True
+    if r[0] == "alt":
+        return all(is_single(x) for x in r[1])
+    if r[0] == "cat":
+        return len(r[1]) == 1 and is_single(r[1][0])
+    return False
+
+
+def determinacy(r, follow, rule, where, count, src=None):
     """LL(1)-style conditions on regex r with `follow` = class of characters that may come next.
     Every ordered choice has pairwise disjoint FIRST classes (at most one nullable alternative, whose
     FOLLOW is disjoint from the others' FIRST); every optional / repeated part has FIRST disjoint from the
@@ -176,10 +194,16 @@ def determinacy(r, follow, rule, where, count):
     if k == "cat":
         items = r[1]
         for i, x in enumerate(items):
-            rest = ("cat", items[i + 1:])
+            j = i + 1
+            if x[0] == "opt" and is_single(x[1]):
+                # a run `C? C? C? Y` of the same single-character optional (from `C{m,n}`) is greedy-deterministic as a
+                # whole: it takes min(k, run length) characters, exactly the regular reading, provided FIRST(Y) misses C
+                while j < len(items) and items[j] == x:
+                    j += 1
+            rest = ("cat", items[j:])
             f, n = first_cls(rest)
             fol = cls_union(f, follow) if n else f
-            determinacy(x, fol, rule, where, count)
+            determinacy(x, fol, rule, where, count, src)
         return
     if k == "alt":
         firsts = [first_cls(x) for x in r[1]]
@@ -190,26 +214,26 @@ def determinacy(r, follow, rule, where, count):
                 count[0] += 1
                 inter = cls_intersect(fi, fj)
                 if inter:
-                    rule.violation("determinacy:%s:choice" % where, JSON,
+                    rule.violation("determinacy:%s:choice" % where, src or JSON,
                                    "in rule %s two alternatives of an ordered choice can start with the same "
                                    "character (U+%04X): the PEG reading may differ from the regular reading, "
                                    "equivalence with the RFC cannot be concluded" % (where, inter[0][0]))
         for x in r[1]:
-            determinacy(x, follow, rule, where, count)
+            determinacy(x, follow, rule, where, count, src)
         return
     if k in ("star", "opt", "plus"):
         f, n = first_cls(r[1])
         count[0] += 1
         inter = cls_intersect(f, follow)
         if inter or n:
-            rule.violation("determinacy:%s:%s" % (where, k), JSON,
+            rule.violation("determinacy:%s:%s" % (where, k), src or JSON,
                            "in rule %s a repeated/optional part can start with a character (U+%04X) that may also "
                            "follow it: greedy matching may hide a parse" % (where, inter[0][0] if inter else 0))
         inner_follow = cls_union(f, follow) if k in ("star", "plus") else follow
-        determinacy(r[1], inner_follow, rule, where, count)
+        determinacy(r[1], inner_follow, rule, where, count, src)
         return
     if k == "rep":
-        determinacy(r[1], cls_union(first_cls(r[1])[0], follow), rule, where, count)
+        determinacy(r[1], cls_union(first_cls(r[1])[0], follow), rule, where, count, src)
         return
 
 
@@ -265,7 +289,7 @@ def run(rep, tier):
         "obligations = determinacy conditions + DFA equivalences + whitespace side conditions + modifier checks; "
         "each is discharged by computation on the grammar file (no parser is run).")
     rep.extra["exhaustive"] = True
-    rep.configs = ["grammar-file"]
+    rep.configs = ["grammar-file", "default", "extras"]
     path = facts.REPO + "/" + JSON
     try:
         rules = pestgram.rules_dict(pestgram.parse_file(path))
@@ -279,18 +303,22 @@ def run(rep, tier):
     tree(rep, rules)
     builtins(rep)
     generated(rep)
+    # the same parser as a build gets it when some crate in the graph turns on pest_derive/grammar-extras (cargo unifies
+    # features, so pest_grammars is then expanded by the grammar-extras arms of the generator)
+    generated(rep, "extras")
 
 
-def generated(rep):
+def generated(rep, cfg="default"):
     """The same LEX / WS / SYN / TREE analysis on the PEG decompiled from the expanded JsonParser (typed HIR of
     pest_grammars): removes the grammar reader, the optimizer and the code generator from the trusted base for
     this grammar (what remains trusted is ParserState, C03, and the decompilation table of pv/decompile.py)."""
     from .. import decompile
     before = len(rep.rules)
-    r = rep.rule("C18.GENERATED", 16, "the derive-expanded JsonParser decompiles to a PEG (one rule per json.pest rule) "
+    tag = "@generated" if cfg == "default" else "@generated-" + cfg
+    r = rep.rule("C18.GENERATED" + ("" if cfg == "default" else "@" + cfg), 16, "the derive-expanded JsonParser decompiles to a PEG (one rule per json.pest rule) "
                  "on which the lexical, whitespace, token-level and tree analyses hold as well")
     try:
-        c = facts.facts("default").crate("pest_grammars")
+        c = facts.facts(cfg).crate("pest_grammars")
         if c is None:
             r.lost("pest_grammars facts")
             return
@@ -311,10 +339,10 @@ def generated(rep):
     if set(g) != src_rules:
         r.violation("rule-set", "grammars/src/lib.rs", "generated parser has rules %s, json.pest has %s" % (
             sorted(set(g) - src_rules), sorted(src_rules - set(g))))
-    lex(rep, g, "@generated")
-    ws(rep, g, "@generated")
-    syn(rep, g, "@generated")
-    tree(rep, g, "@generated")
+    lex(rep, g, tag)
+    ws(rep, g, tag)
+    syn(rep, g, tag)
+    tree(rep, g, tag)
 
 
 def token_follow_chars(rules):
